@@ -1795,6 +1795,8 @@ func (c *Ctx) execRange(st *State, x *ast.RangeStmt, label string) outcome {
 	var n Term
 	var elemAt func(s *State, i Term) Val
 	var elemT types.Type
+	isMapRange := false
+	var mapT *types.Map
 	switch u := xt.Underlying().(type) {
 	case *types.Slice:
 		sl := c.evalSlice(st, x.X)
@@ -1824,6 +1826,15 @@ func (c *Ctx) execRange(st *State, x *ast.RangeStmt, label string) outcome {
 		n = c.idx(at.Len())
 		elemT = at.Elem()
 		elemAt = func(s *State, i Term) Val { return c.load(s, c.elemPrefix(at.Elem()), at.Elem(), p.Ref, i) }
+	case *types.Map:
+		// range over a map: an unknown number of iterations, each with an arbitrary key and an arbitrary element (the
+		// iteration order and - for non-scalar elements - the contents of maps are not modelled)
+		c.eval(st, x.X)
+		c.trusted["range over a map: arbitrary number of iterations with arbitrary keys and elements"] = true
+		n = c.declare("maprange", c.idxSort())
+		st.assume(c, c.ile(c.idx(0), n))
+		isMapRange = true
+		mapT = u
 	default:
 		unsupp("range over %s at %s", xt, c.posStr(x.Pos()))
 	}
@@ -1863,8 +1874,27 @@ func (c *Ctx) execRange(st *State, x *ast.RangeStmt, label string) outcome {
 	}
 	lp.cond = func(s *State) Term { return c.ilt(hidT(s), n) }
 	lp.auto = func(s *State) []Term { return []Term{And(c.ile(c.idx(0), hidT(s)), c.ile(hidT(s), n))} }
+	arbitrary := func(s *State, t types.Type, name string) Val {
+		if !validType(t) || c.opaqueType(t) {
+			return Opaque{t}
+		}
+		var facts []Term
+		v := c.fresh(t, name, &facts)
+		c.refsBounded(v, s.alloc, &facts)
+		s.assume(c, And(facts...))
+		return v
+	}
 	lp.pre = func(s *State) {
 		i := hidT(s)
+		if isMapRange {
+			if keyObj != nil {
+				s.vars[keyObj] = arbitrary(s, mapT.Key(), "mapkey")
+			}
+			if valObj != nil {
+				s.vars[valObj] = arbitrary(s, mapT.Elem(), "mapelem")
+			}
+			return
+		}
 		if keyObj != nil {
 			kt := keyObj.Type()
 			s.vars[keyObj] = Scalar{c.convertIdxTo(i, kt), kt}
